@@ -340,10 +340,27 @@ func (w *World) IO(kind string, off, length int64, faults map[*Fake]Outcome) {
 			if faults[f].Fails() && received[a] {
 				for _, r := range post.Replicas {
 					if r.Address == a {
-						w.Fail("C02", "failed-replica-still-attached:"+kind+":"+string(r.Mode), fmt.Sprintf("%s failed the %s (%s) but is still attached as %s when the call returns: %s", a, kind, OutcomeNames[faults[f]], r.Mode, digest(post, true)))
+						w.FailAny([]string{"C02", "C05"}, "failed-replica-still-attached:"+kind+":"+string(r.Mode), fmt.Sprintf("%s failed the %s (%s) but is still attached as %s when the call returns: %s", a, kind, OutcomeNames[faults[f]], r.Mode, digest(post, true)))
 						return
 					}
 				}
+			}
+		}
+		// only the failing replicas are isolated: a replica that handled the operation stays attached
+		for a := range A {
+			f := w.Fakes[a]
+			if faults[f].Fails() || !received[a] {
+				continue
+			}
+			still := false
+			for _, r := range post.Replicas {
+				if r.Address == a {
+					still = true
+				}
+			}
+			if !still {
+				w.FailAny([]string{"C05", "C02"}, "healthy-replica-detached:"+kind, fmt.Sprintf("%s handled the %s without error but is no longer attached when the call returns; faults %v; before: %s after: %s", a, kind, fs, digest(pre, false), digest(post, false)))
+				return
 			}
 		}
 		// writes must reach exactly the writers
